@@ -37,6 +37,17 @@ def jobs(tier):
     for code in c10:
         for m in ("fifo", "hifo") if tier == "quick" else METHODS:
             js.append({"for": "C10", "code": code, "schedule": {"2020": m}, "years": [2020, 2021]})
+    # UTC offsets.  C09a has no date filter: an own symbolic offset per transaction.  C09b / C10 compare calendar dates with the
+    # filter dates: one symbolic offset shared by all transactions (with different offsets inside one history local dates are
+    # not monotone in the instant, which the iterators' early exit relies on - outside the claim, see DESIGN.md).
+    for p, k in [("BS", "BS"), ("BBS", "S"), ("BSS", "B")] if tier == "quick" else [("BS", "BS"), ("BBS", "S"), ("BSS", "B"), ("BBS", "BS"), ("BIS", "S")]:
+        for m in ("fifo", "lifo") if tier == "quick" else METHODS:
+            js.append({"for": "C09", "form": "a", "p": p, "k": k, "schedule": {"2020": m}, "years": [2020], "off": "each"})
+    for p, k in [("BS", "B"), ("BBS", "B")]:
+        for m in ("fifo", "lifo"):
+            js.append({"for": "C09", "form": "b", "p": p, "k": k, "schedule": {"2020": m}, "years": [2020, 2021], "off": "shared"})
+    for code in ["BSS", "BIS"] if tier == "quick" else ["BSS", "BIS", "BBS", "BSM"]:
+        js.append({"for": "C10", "code": code, "schedule": {"2020": "fifo"}, "years": [2020, 2021], "off": "shared"})
     return js
 
 
@@ -46,9 +57,10 @@ def select(prop, spec):
 
 def describe(spec):
     sch = ",".join("%s:%s" % kv for kv in sorted(spec["schedule"].items()))
+    o = " offset=" + spec["off"] if spec.get("off") else ""
     if spec["for"] == "C09":
-        return "C09%s %s++%s %s" % (spec["form"], spec["p"], spec["k"], sch)
-    return "C10 %s %s" % (spec["code"], sch)
+        return "C09%s %s++%s %s%s" % (spec["form"], spec["p"], spec["k"], sch, o)
+    return "C10 %s %s%s" % (spec["code"], sch, o)
 
 
 def weight(spec):
@@ -64,12 +76,13 @@ def bounds(tier):
         "C10": "histories of %s transactions in a 2-year window, symbolic from_date <= to_date anywhere from 2019-12-30 to 2022-01-01 (on/before/after/between transaction dates, empty windows)" % ("3" if tier == "quick" else "3-4"),
         "amounts": "k*1e-11 in [1e-11, 1e9]",
         "prices": "k*1e-4 in [1e-4, 1e6]",
-        "outside": ["mixed UTC offsets (the iterators' early break assumes local dates monotone in the instant)", "longer histories"],
+        "utc_offsets": "jobs marked offset=each (C09a): an own symbolic offset per transaction; offset=shared (C09b, C10): one symbolic offset for all; otherwise UTC",
+        "outside": ["date filters combined with different UTC offsets inside one history (the iterators' early exit assumes local dates monotone in the instant)", "longer histories"],
     }
 
 
 def assumptions():
-    return ["allow_negative_balances=True", "single UTC offset", "the compared quantities are read from ComputedData (gain/loss set and its fraction numbering, yearly list, balances, average price, filtered transaction sets)"]
+    return ["allow_negative_balances=True", "date-filtered runs use one UTC offset for the whole history (0 or symbolic)", "the compared quantities are read from ComputedData (gain/loss set and its fraction numbering, yearly list, balances, average price, filtered transaction sets)"]
 
 
 def snapshot(S, cd, rows=None):
@@ -132,7 +145,10 @@ def run_c09(S, spec, RP2ValueError):
     years = spec["years"]
     np_ = len(spec["p"])
     slots = slots_of(spec["p"] + spec["k"])
-    h = Hist(S, slots, years)
+    if spec.get("off") == "shared":
+        h = Hist(S, slots, years, shared_off=S.int("off", -720, 840), shared_sym=True)
+    else:
+        h = Hist(S, slots, years, tz=spec.get("off") == "each")
     S.assume_cmp(h.t[np_ - 1], "<", h.t[np_])
     hp = Hist.__new__(Hist)
     hp.__dict__.update(h.__dict__)
@@ -158,7 +174,7 @@ def run_c09(S, spec, RP2ValueError):
         for x, y in zip(sa["gl"], gb):
             S.expect(x["num"][:2] == y["num"][:2] and x["num"][2] == y["num"][2], "C09", "prefix-numbering", "numbering of fraction %s changed: %s vs %s" % (x["id"], x["num"], y["num"]))
         # yearly lines of years closed before the continuation starts
-        first_k_year = h.txs[np_].timestamp.year
+        first_k_year = min(h.txs[i].timestamp.year for i in range(np_, len(slots)))
         ya = {k: v for k, v in sa["yearly"].items() if k[0] < first_k_year}
         yb = {(y.year, y.transaction_type.name, y.is_long_term_capital_gains): (S.ex(y.crypto_amount), S.ex(y.fiat_amount), S.ex(y.fiat_cost_basis), S.ex(y.fiat_gain_loss)) for y in cdb.yearly_gain_loss_list if y.year < first_k_year}
         same_map(S, "C09", "closed-years", ya, yb)
@@ -197,7 +213,7 @@ def snapshot_gl_only(S, cd):
 
 def run_c10(S, spec, RP2ValueError):
     years = spec["years"]
-    h = Hist(S, slots_of(spec["code"]), years)
+    h = Hist(S, slots_of(spec["code"]), years, shared_off=S.int("off", -720, 840) if spec.get("off") == "shared" else None, shared_sym=spec.get("off") == "shared")
     n = len(h.slots)
     lo = date(years[0], 1, 1).toordinal() - 2
     hi = date(years[-1], 12, 31).toordinal() + 1
